@@ -253,6 +253,12 @@ def run_items(items, t_first=25, t_trace=8):
                 offset += n
                 continue
             if begun < n:
+                if r.crashed and not r.timed_out and n > 0:
+                    # killed by a signal between two programs (as in engine/mc/core.py): attributed to the last one completed
+                    out[offset + n - 1] = ("CRASH", "driver died after this program, outside any program: " + r.describe())
+                    offset += n
+                    deaths += 1
+                    continue
                 raise HarnessError("driver died outside an item: %s" % r.describe())
             out[offset + n] = ("TIMEOUT" if r.timed_out else "CRASH", r.describe())
             offset += n + 1
